@@ -52,10 +52,15 @@ EXPECTED_PROBES = ["tzlocal_judged", "tzlocal_stale_not_judged",
 
 CLASSES = {
     "config": dict(quick=25000, thorough=600000, timeout=120),
+    # zone objects (tzstr instances are shared process-wide by their factory)
+    # queried concurrently from 2-3 threads at instants of different years
+    "threads": dict(quick=2500, thorough=60000, timeout=120),
 }
 
 
 def TARGET_FILES(cls):
+    if cls == "threads":
+        return ["tz/tz.py", "tz/_common.py", "tz/_factories.py"]
     return ["tz/tz.py", "tz/_common.py"]
 
 
@@ -83,6 +88,32 @@ KINDS = ["tzlocal", "tzlocal", "tzstr", "tzstr", "tzstr_posix", "tzrange",
 
 
 def generate(cls, rng):
+    if cls == "threads":
+        spec = PX.gen_spec(rng)
+        fmt = dict(always_time=rng.random() < 0.3, explicit_dstoff=None)
+        kinds = [rng.choice(["tzstr", "tzstr", "tzrange", "tzlocal", "gettz"])
+                 for _ in range(rng.choice([1, 1, 2]))]
+        threads = []
+        for _ in range(rng.choice([2, 2, 3])):
+            prog = []
+            for _ in range(rng.randrange(2, 7)):
+                prog.append(["query", rng.randrange(len(kinds)),
+                             rng.choice([1999, 2000, 2023, 2024]),
+                             rng.choice(["start", "end"]),
+                             rng.choice([-86400, -1800, -1, 0, 1, 1800, 86400,
+                                         rng.randrange(-10 ** 7, 10 ** 7)])])
+            threads.append(prog)
+        kind = rng.choice(["random", "random", "pb", "pct"])
+        if kind == "random":
+            strat = dict(kind="random", p=rng.choice([0.02, 0.1, 0.3, 1.0]))
+        elif kind == "pb":
+            strat = dict(kind="pb", k=rng.choice([1, 2, 3]),
+                         horizon=rng.choice([200, 1000, 4000]))
+        else:
+            strat = dict(kind="pct", d=rng.choice([2, 3, 4]),
+                         horizon=rng.choice([200, 1000, 4000]))
+        return dict(specs=[spec], fmt=[fmt], kinds=kinds, threads=threads,
+                    sched=dict(strategy=strat, seed=rng.getrandbits(32)))
     specs = [PX.gen_spec(rng) for _ in range(rng.choice([1, 2, 2, 3]))]
     if rng.random() < 0.3:
         specs.append(PX.gen_spec(rng, with_dst=False))
@@ -286,9 +317,71 @@ MALFORMERS = {
 }
 
 
+def execute_threads(scenario, ctx):
+    from dsim.kernel import Scheduler, SimBaseException
+    env = Env(ctx, scenario)
+    spec = env.specs[0]
+    env.cur = 0
+    set_env(env.strings[0])
+    zones = []
+    for kind in scenario["kinds"]:
+        z = env.make(kind, 0)
+        if z is None:
+            z = env.make("tzstr", 0)
+            kind = "tzstr"
+        zones.append((z, kind))
+    st = scenario["sched"]
+    sched = Scheduler(st["strategy"], st.get("seed", 0), tape=st.get("tape"),
+                      max_steps=3000000)
+    sav = spec["dstoff"] - spec["stdoff"]
+    for ti, prog in enumerate(scenario["threads"]):
+        def body(ti=ti, prog=prog):
+            for op in prog:
+                _, zi, year, which, delta = op
+                zone, kind = zones[zi % len(zones)]
+                a, b = PX.transitions_utc(spec, year)
+                ts = (a if which == "start" else b) + delta
+                try:
+                    got = observe(zone, ts)
+                except (Deadlock, BudgetExceeded):
+                    raise
+                except Exception as e:
+                    if isinstance(e, SimBaseException):
+                        raise
+                    with K.mute():
+                        ctx.violation("C08.query_raises",
+                                      dict(tz=env.strings[0], zone_kind=kind,
+                                           ts=ts, exc=type(e).__name__,
+                                           msg=str(e)[:160], task="T%d" % ti))
+                    continue
+                with K.mute():
+                    off, abbr, isdst = PX.at(spec, ts)
+                    want = (off, abbr, sav if isdst else 0)
+                    ctx.checks += 1
+                    ctx.event("T%d" % ti, kind, ts, got)
+                    if tuple(got) != want:
+                        ctx.violation(
+                            "C08.wrong_answer",
+                            dict(tz=env.strings[0], zone_kind=kind, ts=ts,
+                                 got=got, want=list(want), task="T%d" % ti,
+                                 rule_time_outside_day=not
+                                 PX.rule_times_in_day(spec)))
+        sched.spawn(body, "T%d" % ti)
+    try:
+        sched.run()
+    finally:
+        ctx.sched_summary = sched.summary()
+        set_env(None)
+    ctx.fault("preemption", sched.preemptions)
+    if sched.switches:
+        ctx.nontrivial = True
+
+
 def execute(cls, scenario, ctx):
     import warnings
     warnings.simplefilter("ignore")
+    if cls == "threads":
+        return execute_threads(scenario, ctx)
     env = Env(ctx, scenario)
     judged = 0
     made_local = 0
